@@ -26,7 +26,7 @@ def gen(rng, n, tier):
     two_pi = 2 * math.pi
     for i in range(n):
         cls = rng.choice(CLASSES)
-        s = float(rng.choice([1e-4, 1e-2, 1, 1, 1, 100, 1e4]))
+        s = float(rng.choice([1e-4, 1e-2, 1, 1, 1, 100, 1e4, 1e-9, 1e-12]))      # down to nanoseconds given in seconds
         full = rng.random() < 0.35
         R = rng.uniform(0.5, 5) * s
         def rad(): return edges(rng, 0.0 if full or rng.random() < 0.5 else 0.2 * s, R, rng.randint(1, 5))
